@@ -158,7 +158,30 @@ def run_check(pid, tier, seed, t0):
     bounded = []
     bfail = []
     if hasattr(prop, "bounded"):
-        for b in prop.bounded(tier, seed, REPO):
+        try:
+            bres = prop.bounded(tier, seed, REPO)
+        except Exception as e:
+            # an exception that escapes from the LIBRARY through a harness line that
+            # did not expect one is a finding about the library, not a checker crash
+            import traceback
+            tb = traceback.extract_tb(e.__traceback__)
+            inner = tb[-1].filename if tb else ""
+            if os.path.realpath(inner).startswith(os.path.realpath(REPO) + os.sep) and \
+                    not isinstance(e, (ImportError, AttributeError, NameError)):
+                hline = [f for f in tb if "/props/" in f.filename]
+                bres = [{"name": "harness.unexpected-library-exception", "kind": "grid",
+                         "bound": "stand-in aborted", "evaluations": 1, "exhaustive": False,
+                         "failures": [{
+                             "id": "exception|%s|%s" % (type(e).__name__, str(e)[:80]),
+                             "input": {"harness_line": "%s:%s %s" % (
+                                 hline[-1].filename, hline[-1].lineno, hline[-1].line)
+                                 if hline else None},
+                             "observed": "".join(traceback.format_exception(
+                                 type(e), e, e.__traceback__))[-1500:],
+                             "expected": "no exception at this call"}]}]
+            else:
+                raise
+        for b in bres:
             bounded.append({k: v for k, v in b.items() if k != "failures"})
             for f in b.get("failures", []):
                 bfail.append((b, f))
